@@ -2,7 +2,10 @@ package enum
 
 import (
 	"fmt"
+	"strings"
 
+	"google.golang.org/protobuf/encoding/protowire"
+	"google.golang.org/protobuf/proto"
 	"google.golang.org/protobuf/reflect/protoreflect"
 )
 
@@ -69,6 +72,49 @@ func msgBuilders(md protoreflect.MessageDescriptor, dep int, o Opts) []Cand {
 			n++
 			c := c
 			out = append(out, Cand{Label: "{" + s.Name + "=" + c.Label + "}", Rep: len(out) == 1, Apply: c.Apply})
+		}
+	}
+	// a nested value whose own encoding is longer than 127 and than 16383 bytes (multi-byte length prefixes at
+	// this nesting position): through a string/bytes field if the type has one, else through unknown data
+	if dep == 1 {
+		var bigFD protoreflect.FieldDescriptor
+		fs := md.Fields()
+		for i := 0; i < fs.Len(); i++ {
+			f := fs.Get(i)
+			if (f.Kind() == protoreflect.StringKind || f.Kind() == protoreflect.BytesKind) && !f.IsList() && !f.IsMap() && f.ContainingOneof() == nil {
+				bigFD = f
+				break
+			}
+		}
+		fill := func(m protoreflect.Message, n int) {
+			if bigFD != nil {
+				f := m.Descriptor().Fields().ByNumber(bigFD.Number())
+				if f.Kind() == protoreflect.StringKind {
+					m.Set(f, protoreflect.ValueOfString(strings.Repeat("q", n)))
+				} else {
+					m.Set(f, protoreflect.ValueOfBytes([]byte(strings.Repeat("q", n))))
+				}
+				return
+			}
+			u := protowire.AppendTag(nil, 1000, protowire.BytesType)
+			u = protowire.AppendBytes(u, []byte(strings.Repeat("q", n)))
+			m.SetUnknown(u)
+		}
+		targets := []int{127, 128, 129, 300}
+		if o.Top == AllLens {
+			targets = append(targets, 16383, 16384, 16385)
+		}
+		for _, target := range targets {
+			// payload length such that the nested message encodes to exactly `target` bytes
+			for n := target; n > target-8 && n >= 0; n-- {
+				probe := NewDyn(md)
+				fill(probe, n)
+				if proto.Size(probe) == target {
+					n := n
+					out = append(out, Cand{Label: fmt.Sprintf("{encoded size %d}", target), Apply: func(m protoreflect.Message) { fill(m, n) }})
+					break
+				}
+			}
 		}
 	}
 	return out
@@ -226,6 +272,16 @@ func fieldCands(fd protoreflect.FieldDescriptor, dep int, o Opts) []Cand {
 			}
 			app("[3]", true, r[len(r)-1], r[0], r[1])
 			app("[zero]", true, r[0])
+			// long lists: packed payloads longer than 127 bytes (two-byte length prefix), many unpacked records
+			if dep == 0 {
+				for _, n := range []int{16, 32, 128, 130} {
+					vs := make([]V, n)
+					for i := range vs {
+						vs[i] = r[(i+1)%len(r)]
+					}
+					app(fmt.Sprintf("[%d elements]", n), false, vs...)
+				}
+			}
 		}
 	case isMsg:
 		for _, b := range msgBuilders(fd.Message(), dep+1, o) {
